@@ -152,3 +152,10 @@ Theorem C10_ex_per_run_channel_same_trace : exists s s',
   lstep (code_lcfg (mkd false 1)) s (ExecStart 2 (Some 0)) = Some s' /\ cur_done s' = Some false.
 Proof. exact ex_per_run_channel_same_trace. Qed.
 Print Assumptions C10_ex_per_run_channel_same_trace.
+
+(* structural facts of Wait read from the source on every run (Gen/Params.v): it waits for the counter, it
+   gives up when the caller's context ends, and it starts no goroutine: a Wait that timed out leaves nothing
+   behind that a later Start could race with (the shape before f3bea02 is rejected here) *)
+Theorem C10_wait_leaves_nothing_behind : wait_waits_wg = true /\ wait_selects_ctx = true /\ wait_leaves_no_goroutine = true.
+Proof. exact wait_shape. Qed.
+Print Assumptions C10_wait_leaves_nothing_behind.
